@@ -25,7 +25,7 @@ LEVEL = 'exploration'
 BUDGET_S = {'quick': 42, 'thorough': 640}
 # floors: about 40% of what seed 0 reaches on an otherwise idle machine would be twice these numbers; the quick tier was
 # also run while 16 other check shards competed for the cores (3-4x slower) and has to stay conclusive then
-FLOORS = {'quick': {'scenarios': 200, 'getmap_requests': 1200, 'strong_pixels_judged': 32000000, 'weak_pixels': 400000,
+FLOORS = {'quick': {'rescale_histories': 10, 'rescaled_tiles_judged': 50, 'scenarios': 200, 'getmap_requests': 1200, 'strong_pixels_judged': 32000000, 'weak_pixels': 400000,
                     'exact_tile_requests': 240, 'exact_pixels_judged': 240000, 'featureinfo_requests': 480,
                     'featureinfo_regridded': 160, 'wmts_featureinfo_requests': 80, 'reprojected_requests': 560,
                     'v130_requests': 640, 'mean_shift_judged': 1600},
@@ -1191,13 +1191,102 @@ def gen_cases(run):
             yield c
     n = run.pick(700, 12000)
     for i in range(n):
+        if i % 12 == 3:
+            yield {'i': i, 'family': 'rescale', 'must': i < 120}
         yield {'i': i, 'family': 'exact' if i % 6 == 5 else 'ramp'}
+
+
+def run_rescale(run, case, d):
+    """caches with upscale_tiles / downscale_tiles build a missing tile from the tiles of the neighbouring level when no
+    source can deliver it. The neighbouring level is filled partly, every stored tile is one solid colour that encodes its
+    own address; the rebuilt tile must show, in every part, the colour of the stored tile that covers that ground, and
+    nothing where no tile is stored."""
+    from PIL import Image
+    from mapproxy.cache.tile import Tile
+    from mapproxy.image import ImageSource
+    from mapproxy.image.opts import ImageOptions
+    rng = run.rng('rescale', case['i'])
+    direction = rng.choice(['down', 'down', 'up'])
+    origin = rng.choice(['ll', 'ul'])
+    ts = rng.choice([32, 64])
+    conf = scenario.base_conf()
+    conf['grids']['g'] = {'srs': 'EPSG:3857', 'bbox': [-20037508.342789244, -20037508.342789244, 20037508.342789244, 20037508.342789244],
+                          'tile_size': [ts, ts], 'num_levels': 6, 'origin': origin}
+    cache = {'grids': ['g'], 'sources': [], 'format': 'image/png',
+             'cache': rng.choice([{'type': 'file', 'directory_layout': 'tc'}, {'type': 'sqlite'}])}
+    cache['downscale_tiles' if direction == 'down' else 'upscale_tiles'] = 1
+    if rng.random() < 0.4:
+        cache['cache_rescaled_tiles'] = True
+    conf['caches']['c'] = cache
+    conf['layers'] = [{'name': 'l', 'title': 'l', 'sources': ['c']}]
+    conf['services'] = {'tms': {}}
+    sc = scenario.Scenario(d, conf)
+    tm = sc.tile_manager('c')
+    grid = sc.grid('g')
+    z = rng.randint(1, 3)
+    zs = z + 1 if direction == 'down' else z - 1
+    nxs, nys = grid.grid_sizes[zs]
+
+    def colour(c):
+        return (40 + (c[0] % 8) * 25, 40 + (c[1] % 8) * 25, 60 + (c[2] % 4) * 40)
+    opts = ImageOptions(format='image/png', transparent=True)
+    stored = set()
+    share = rng.choice([0.3, 0.5, 0.75, 0.75, 1.0])
+    for x in range(nxs):
+        for y in range(nys):
+            if rng.random() < share:
+                tm.cache.store_tile(Tile((x, y, zs), ImageSource(Image.new('RGBA', (ts, ts), colour((x, y, zs)) + (255,)), image_opts=opts)))
+                stored.add((x, y, zs))
+    if not stored:
+        run.dc('rescale_nothing_stored')
+        return
+    mech0 = {'family': 'rescale', 'direction': direction, 'cached': True, 'reprojected': False, 'shape': 'rescale', 'origin': origin}
+    nx, ny = grid.grid_sizes[z]
+    targets = [(x, y, z) for x in range(nx) for y in range(ny)]
+    rng.shuffle(targets)
+    for t in targets[:6]:
+        with tm.session():
+            tile = tm.load_tile_coord(t)
+        run.hit('rescaled_tiles_judged')
+        run.judge(('rescale', direction, origin, share), nontrivial=True)
+        tb = grid.tile_bbox(t)
+        # the pieces of ground of the source level inside this tile, with the pixel where each is centred
+        expect = []
+        for sx in range(nxs):
+            for sy in range(nys):
+                sb = grid.tile_bbox((sx, sy, zs))
+                ix0, iy0, ix1, iy1 = max(sb[0], tb[0]), max(sb[1], tb[1]), min(sb[2], tb[2]), min(sb[3], tb[3])
+                if ix1 - ix0 <= 1e-6 or iy1 - iy0 <= 1e-6:
+                    continue
+                cx, cy = (ix0 + ix1) / 2, (iy0 + iy1) / 2
+                px = int((cx - tb[0]) / (tb[2] - tb[0]) * ts)
+                py = int((tb[3] - cy) / (tb[3] - tb[1]) * ts)
+                expect.append(((sx, sy, zs), (min(ts - 1, px), min(ts - 1, py))))
+        img = tile.source.as_image().convert('RGBA') if tile.source is not None else None
+        problems = []
+        for sc_, (px, py) in expect:
+            got = img.getpixel((px, py)) if img is not None else (0, 0, 0, 0)
+            if sc_ in stored:
+                want = colour(sc_)
+                if got[3] < 200 or max(abs(got[k] - want[k]) for k in range(3)) > 12:
+                    problems.append('pixel %r (ground of stored tile %r) shows %r, expected %r' % ((px, py), sc_, got, want + (255,)))
+            elif got[3] > 40:
+                problems.append('pixel %r (ground of tile %r which is NOT stored) shows %r, expected nothing' % ((px, py), sc_, got))
+        if problems:
+            run.violation(dict(mech0, clause='rescaled_content_misplaced'), dict(case),
+                          'tile %r of a cache with %sscale_tiles: 1, built from level %d (%d of %d tiles stored, origin %s, tile size %d): %s' % (
+                              t, direction, zs, len(stored), nxs * nys, origin, ts, '; '.join(problems[:3])))
+            return
+    run.hit('rescale_histories')
 
 
 def run_case(run, case):
     rng = run.rng('case', case['i'])
     d = run.subdir('c01')
     try:
+        if case['family'] == 'rescale':
+            run_rescale(run, case, d)
+            return
         if case['family'] == 'exact':
             spec = case.get('spec') or gen_exact_spec(rng)
             reqs = case.get('requests') or gen_exact_requests(rng, spec, 10)
